@@ -172,6 +172,69 @@ def TB.trim (t : TB) (endOnly : Bool := false) : TB := { t with lines := trimLis
 
 def TB.asContent (t : TB) : Content := .tb t.header t.lines
 
+/-! ### one TextBlock / Comment object under a history of operations
+
+The object is mutable in the implementation (line buffer, stored indentizer); the model threads the
+state.  `isComment` objects are `cpp_gen.Comment`s: their string form indents a *copy* with the stored
+indentizer and drops nothing else. -/
+
+structure TObj where
+  tb : TB := {}
+  isComment : Bool := false
+  deriving Repr, Inhabited
+
+inductive HOp
+  | append (c : Content)            -- `t.append(c)` / `t += c`
+  | trim (endOnly : Bool)
+  | indent (i : Option Indentizer)  -- `t.indent(i)`; `none`: the stored indentizer
+  | setIndentor (i : Indentizer)
+  | setLines (ls : List Str)        -- `t.lines = ls`
+  | add (c : Content)               -- `t + c` (a new block; `t` unchanged)
+  | pour (inList : Bool)            -- `TextBlock(t)` / `TextBlock([t])` (a new block; `t` unchanged)
+  | observe
+  deriving Repr, Inhabited
+
+/-- `TextBlock(content, header)` resp. `Comment(content)` -/
+def TObj.new (isComment : Bool) (content : Content) (header : Content := .none) : TObj :=
+  if isComment then { tb := { (TB.mk' content) with ind := commentIndentizer }, isComment := true }
+  else { tb := TB.mk' content header }
+
+/-- `str(t)` -/
+def TObj.str (o : TObj) : Str :=
+  if o.isComment then tbStr [] (o.tb.ind.toListFlat o.tb.lines) else o.tb.toStr
+
+/-- the object as content of another block -/
+def TObj.asContent (o : TObj) : Content :=
+  if o.isComment then
+    -- a Comment inside a list is stringified (rendered); given directly its buffer is copied
+    .obj o.str
+  else o.tb.asContent
+
+/-- one operation: the new state and, for the operations that return a new block, its lines -/
+def TObj.step (o : TObj) : HOp → TObj × Option (List Str)
+  | .append c => ({ o with tb := o.tb.append c }, none)
+  | .trim e => ({ o with tb := o.tb.trim e }, none)
+  | .indent i => ({ o with tb := o.tb.indent i }, none)
+  | .setIndentor i => ({ o with tb := { o.tb with ind := i } }, none)
+  | .setLines ls => ({ o with tb := { o.tb with lines := ls } }, none)
+  | .add c => (o, some (o.tb.add c).lines)
+  | .pour inList =>
+    (o, some (if inList then (TB.mk' (.list [o.asContent])).lines else o.tb.lines))
+  | .observe => (o, none)
+
+/-- what is observed after a step: the line buffer, the string form, the extra result -/
+structure HObs where
+  lines : List Str
+  str : Str
+  extra : Option (List Str)
+  deriving Repr, Inhabited, DecidableEq
+
+def TObj.run (o : TObj) : List HOp → List HObs
+  | [] => []
+  | op :: ops =>
+    let (o', x) := o.step op
+    { lines := o'.tb.lines, str := o'.str, extra := x } :: TObj.run o' ops
+
 /-! ### Indentizer on arbitrary content; to_str -/
 
 def Indentizer.toList (i : Indentizer) (c : Content) : List Str := i.toListFlat (flatten false c)
